@@ -233,6 +233,10 @@ func parent(p *core.Prop) int {
 		stderr, _ := os.Create(filepath.Join(pdir, "stderr"))
 		cmd.Stdout, cmd.Stderr = stdout, stderr
 		cmd.Env = append(os.Environ(), "GORACE=halt_on_error=0 log_path="+filepath.Join(pdir, "race"), "GOTRACEBACK=all")
+		if os.Getenv("GOMEMLIMIT") == "" {
+			// a soft limit makes the collector work harder instead of letting a fast workload grow until the kernel kills it
+			cmd.Env = append(cmd.Env, "GOMEMLIMIT=20GiB")
+		}
 		to := part.QuickTimeoutS
 		if *fTier == "thorough" {
 			to = part.ThoroughTimeoutS
